@@ -17,7 +17,7 @@ FORMULAS = [
     "{r} | a", "a <= b", "[a] = 99999999999999999999", "[a] > 9223372036854775807", "-(a b c", "", "\"only a comment\"",
     "(", "a &", "[a, b", "exists # a", "exists a #", "a \"c\" b", "٣", "a\x00b", "[a,] < 0", "mu X # (exists X # X)",
     "[a, b] < [a]", "[[a] = 1, b] >= 1", "a nand b nor c", "all a # [a, b] = [b]", "if [a,b]=1 then {x} else -c",
-    "ééé & b", "größe | länge", "变量 => b", "exists é # (é & ñandú) | ü",
+    "[a] = ९९९९९९९", "[a] = 1٣٣٣٣٣٣٣٣٣٣٣", "[a, b] >= ०००००००००", "ééé & b", "größe | länge", "变量 => b", "exists é # (é & ñandú) | ü",
     "a & if a then b else c", "a | [a, b] >= 1", "b | [a, b|c] <= [b, c]", "(a & b) | if (a & b) then c else (a & b)", "exists a # [a, a & b] = [a & b]",
     "position_of_queen_one & -position_of_queen_two | q",
     "(gfp X # X & a) & X", "X & (gfp X # X & a)", "(exists x # (x & a)) & (b | x)", "nu X # ((mu X # (X | a)) & X)", "if a then b else c",
